@@ -260,6 +260,11 @@ def run(ctx):
         # the implementation model against its own specification on concrete inputs (theorem C06_programs, extracted code)
         ctx.correspondence("extracted run ~ extracted spec_run (C06_programs on concrete inputs)", case, mi, ms)
         if known and p["impl"][0] == "fail" and mi[0] == "ok":
+            continue
+        if p["prog"]["rd"][0] == "iter" and p["oracle_rows"] is None:
+            # iteration with no data column: the property claims nothing there (whether frames without columns are yielded or
+            # dropped is not observable through cells); neither the oracle nor this correspondence looks at it
+            ctx.count("iter_without_data_columns_not_compared", 1)
             continue            # the real code raises here (open findings); the model describes the behaviour without the defect
         ctx.correspondence("Read.run ~ ParquetFile access program on the real code", case, R.align(mi, p["impl"]), p["impl"])
     ctx.extra["datasets"] = len(jobs)
